@@ -61,7 +61,7 @@ CLAIMED.update({
     "C01": ("DESIGN.md 9/C01, 13.7", TECH + "bounded symbolic runs against a reference printer plus an inductive step from an arbitrary invariant state",
             _bsr("z3 shows per path that no executed element moves X/Y into a region and that nothing moves or pushes "
                  "filament while the oracle's episode is open; region additions interleaved with the stream."),
-            PIPE_NOTE + "K=2 over five alphabets and K=3 episode templates (quick), K=3/4 (thorough); one region plus one added "
+            PIPE_NOTE + "K=2 over five alphabets and K=3 episode templates (quick and thorough; thorough with rectangle and disc regions throughout); one region plus one added "
             "mid-stream; exclusion enabled throughout; two known findings assumed away by scenario predicates. The inductive "
             "step (one command of 20 shapes from an arbitrary state satisfying the stated coupling invariant, invariant "
             "re-established) extends the claim to programs of every length over that alphabet."),
@@ -115,7 +115,7 @@ CLAIMED.update({
             "from a symbolic switch position on, in inches / relative coordinates / after a G92 re-basing / translated together with the "
             "regions; both renderings run through separate real handler+state instances; z3 shows equal decisions after every step and "
             "equal physical end positions.",
-            PIPE_NOTE + "K=3 quick / 4 thorough, one region, G1 vocabulary (no arcs); three known findings assumed away (relative exit, "
+            PIPE_NOTE + "K=3 (thorough: rectangle and disc regions in every encoding), one region, G1 vocabulary (no arcs); three known findings assumed away (relative exit, "
             "G92 X/Y/Z offset sign, entering move with Z)."),
     "C10": ("DESIGN.md 9/C10", TECH + "relational: used plugin vs. fresh plugin after PrintStarted, state comparison plus probe program",
             "Bounded symbolic model checking, relational: plugin A lives through every history of H steps over a 16-item alphabet "
